@@ -8,7 +8,8 @@ import numeric as N
 
 def boundaries(spec):
     return sorted({float(t) for d in (spec.get('pop_sizes') or {}).values() for t in d} |
-                  {float(t) for d in (spec.get('migration_rates') or {}).values() for t in d})
+                  {float(t) for d in (spec.get('migration_rates') or {}).values() for t in d} |
+                  {float(e['time']) for e in (spec.get('late_events') or []) if 'time' in e})
 
 
 def run(res, replay=None):
@@ -44,6 +45,15 @@ def run(res, replay=None):
                                   n_demes=(2 if mob else None), mig_only_boundary=mob,
                                   end_time=('always' if i % 2 == 0 else 'never'))
             specs.append(s)
+    if not replay:
+        # designed: the user looks at the object (size of its state space), THEN completes the demography the object holds
+        # (a change taking effect at time 0 and a later one), THEN asks for the distribution function
+        specs.append({'n_items': [['a', 3]], 'model': {'kind': 'kingman'}, 'pop_sizes': {'a': {'0.0': 1.0, '1.0': 0.5}},
+                      'late_events': [{'type': 'PopSizeChange', 'pop': 'a', 'time': 0.0, 'size': 2.0}], 'designed': 'late_event'})
+        specs.append({'n_items': [['a', 1], ['b', 1]], 'model': {'kind': 'kingman'}, 'pop_sizes': {'a': {'0.0': 1.0}, 'b': {'0.0': 2.0}},
+                      'migration_rates': {'a>b': {'0.0': 0.5}, 'b>a': {'0.0': 0.25}},
+                      'late_events': [{'type': 'MigrationRateChange', 'source': 'a', 'dest': 'b', 'time': 0.0, 'rate': 2.0},
+                                      {'type': 'PopSizeChange', 'pop': 'b', 'time': 0.5, 'size': 0.5}], 'designed': 'late_event'})
     qs_levels = [0.05, 0.5, 0.9, 0.99]
     NS = 4      # number of single-time cdf calls per configuration
     cases = []
